@@ -171,6 +171,8 @@ def main(run):
     for rows, cols in shapes:
         for nan in (True, False):
             run.prove(f"roundtrip[shape={rows}x{cols},nan={nan}]", SS.sc_output_roundtrip, {"rows": rows, "cols": cols, "nan": nan}, pkg=pkg)
+    for rows, cols in shapes[:3]:
+        run.prove(f"pipeline[shape={rows}x{cols}]", SS.sc_save_pipeline, {"rows": rows, "cols": cols}, pkg=pkg)
     for rows in (1, 2, 3):
         run.prove(f"roundtrip.3d[steps={rows}]", SS.sc_output_roundtrip, {"rows": rows, "cols": 2, "three_d": True}, pkg=pkg)
     run.discharge()
